@@ -243,6 +243,13 @@ func (r *c17Runner) scanLTX() {
 				r.res.LTXFiles++
 				if c17Debug && where == "replica" {
 					fmt.Printf("  after %-12s %s commit=%d pages=%d snapshot=%v\n", r.s.History[len(r.s.History)-1], f, d.Hdr.Commit, len(d.Pages), d.Hdr.IsSnapshot())
+					var missing []uint32
+					for p := uint32(1); p <= d.Hdr.Commit; p++ {
+						if _, ok := d.Pages[p]; !ok {
+							missing = append(missing, p)
+						}
+					}
+					fmt.Printf("      absent pages: %v\n", missing)
 				}
 				if int(d.Hdr.Commit) > r.lock {
 					r.res.LTXSpanning++
